@@ -188,11 +188,22 @@ def objective_z(name, sums):
     raise KeyError(name)
 
 
+def ctx_cache(key, build):
+    """memoise an oracle term for the lifetime of the current exploration context (its variables are fixed)"""
+    from pathsym.engine import Ctx
+    c = Ctx.cur
+    store = c.__dict__.setdefault('_oracle_cache', {})
+    if key not in store:
+        store[key] = build()
+    return store[key]
+
+
 def optimal_among_partitions(objname, result_sums, xs, k):
     """result is optimal: for every partition P of the items into <= k bins, obj(result) <= obj(P)"""
     mine = objective_z(objname, result_sums)
     n = len(xs)
-    return z3.And([mine <= objective_z(objname, block_sums(a, xs, k)) for a in rgs(n, k)])
+    terms = ctx_cache(('opt', objname, k, n), lambda: [objective_z(objname, block_sums(a, xs, k)) for a in rgs(n, k)])
+    return z3.And([mine <= t for t in terms])
 
 
 def multiset_eq(a, b):
